@@ -101,6 +101,16 @@ class NaNType:
 NaN = NaNType()
 
 
+class NanReal:
+    """a float read from a cell that may hold NaN: value term + isnan flag (NaN propagates through arithmetic)"""
+
+    def __init__(self, val, isnan):
+        self.val, self.isnan = val, isnan
+
+    def __repr__(self):
+        return "NanReal(%s,%s)" % (self.val, self.isnan)
+
+
 # ----------------------------------------------------------------------------- numpy arrays
 class Cell:
     """storage shared by an array and all its views"""
@@ -282,28 +292,71 @@ class Opaque:
         return "<Opaque %s %s>" % (self.tag, self.term)
 
 
-class SList:
-    """list of symbolic length: length term + z3 array Int -> elem (elem: z3 sort)"""
+memF = z3.Function("member", z3.ArraySort(z3.IntSort(), z3.IntSort()), z3.IntSort(), z3.IntSort(), z3.BoolSort())
 
-    def __init__(self, length, term, sort, wrap=None, unwrap=None):
+
+class SList:
+    """list of symbolic length: length term + z3 array Int -> elem (elem: z3 sort); optional NaN flags"""
+
+    def __init__(self, length, term, sort, wrap=None, unwrap=None, nan=None):
         self.length = length
         self.term = term
         self.sort = sort
         self.wrap = wrap or (lambda t: t)
         self.unwrap = unwrap or (lambda v: z(v))
+        self.nan = nan                # None or z3 Array Int -> Bool
+        self.on_append = None         # ghost hook(E, position, value term, isnan term)
 
     @staticmethod
-    def fresh(name, sort, wrap=None, unwrap=None):
+    def fresh(name, sort, wrap=None, unwrap=None, nan=False):
         n = z3.Int(fresh_name(name + "_len"))
-        return SList(n, z3.Const(fresh_name(name), z3.ArraySort(z3.IntSort(), sort)), sort, wrap,
-                     unwrap)
+        r = SList(n, z3.Const(fresh_name(name), z3.ArraySort(z3.IntSort(), sort)), sort, wrap, unwrap)
+        if nan:
+            r.nan = z3.Const(fresh_name(name + "_nan"), z3.ArraySort(z3.IntSort(), z3.BoolSort()))
+        return r
+
+    @staticmethod
+    def empty(sort=None, nan=True):
+        if sort is None:
+            sort = z3.RealSort()
+        isreal = sort.kind() == z3.Z3_REAL_SORT
+        r = SList(z3.IntVal(0), z3.K(z3.IntSort(), z3.RealVal(0) if isreal else z3.IntVal(0)), sort)
+        if nan:
+            r.nan = z3.K(z3.IntSort(), z3.BoolVal(False))
+        return r
 
     def get(self, i):
         return self.wrap(z3.Select(self.term, z(i)))
 
-    def append(self, v):
-        self.term = z3.Store(self.term, self.length, self.unwrap(v))
-        self.length = self.length + 1
+    def member(self, q):
+        """ghost: q occurs in the list (integer lists; maintained by append lemma instances)"""
+        return memF(self.term, self.length, z(q))
+
+    def isnan(self, i):
+        return z3.Select(self.nan, z(i)) if self.nan is not None else z3.BoolVal(False)
+
+    def append(self, v, E=None):
+        if v is NaN:
+            val, flag = (z3.RealVal(0) if self.sort.kind() == z3.Z3_REAL_SORT else z3.IntVal(0)), z3.BoolVal(True)
+            if self.nan is None:
+                self.nan = z3.K(z3.IntSort(), z3.BoolVal(False))
+        else:
+            val, flag = self.unwrap(v), z3.BoolVal(False)
+            if self.sort.kind() == z3.Z3_REAL_SORT and z3.is_int(val):
+                val = z3.ToReal(val)
+        pos = self.length
+        old_term = self.term
+        self.term = z3.Store(self.term, pos, val)
+        if self.nan is not None:
+            self.nan = z3.Store(self.nan, pos, flag)
+        self.length = z3.simplify(self.length + 1)
+        if E is not None and self.sort.kind() == z3.Z3_INT_SORT:
+            # ghost membership predicate of integer lists: append lemma instance
+            q = z3.Int(fresh_name("mq"))
+            E.axiom(z3.ForAll([q], memF(self.term, self.length, q) == z3.Or(memF(old_term, pos, q), q == val)))
+        if self.on_append is not None and E is not None:
+            self.on_append(E, pos, val, flag)
 
     def snapshot(self):
-        return SList(self.length, self.term, self.sort, self.wrap, self.unwrap)
+        r = SList(self.length, self.term, self.sort, self.wrap, self.unwrap, self.nan)
+        return r
